@@ -528,7 +528,7 @@ _C14 = [
 for _m, _n, _of, _what in _C14:
     H("C14", _m, _n, timeout=2400, oracle_features=_of, encodes=[_what], inputs="all peer-controlled bytes symbolic", asserts="no reachable panic, overflow or out-of-bounds access (plus the functional assertions of the harness)",
       bounds="see the harness under its own property", assumes=[BIG_ASSUME])
-H("C18", "matrix_card", "c18_proof_agreement", timeout=3600, oracle_features=["cap64", "q16"],
+H("C18", "matrix_card", "c18_proof_agreement", timeout=3600, oracle_features=["cap64", "q32"],
   encodes=["matrix_card::verify_matrix_card_hash", "MatrixCardVerifier::{new, get_matrix_coordinates, enter_value, into_proof}", "MatrixCard::get_number_at_coordinates"],
   inputs="2x2 card; (digits, challenges) in {(1,1), (2,2)}; seed, session key, card contents, position of one mistyped digit: any",
   asserts="proof of the printed digits at the challenged cells is accepted; a proof from a sequence with one digit changed is refused",
